@@ -50,6 +50,14 @@ func Damage(r *Rng, b *Build, o DamageOpts) (*Build, []string) {
 			case 2:
 				pos = len(f.Data) - 1
 			}
+			if r.Intn(3) == 0 {
+				// damage that leaves the block's WEAK hash as it was (+1, -2, +1 on three consecutive bytes of one
+				// block: both running sums are unchanged), so only the strong hash tells
+				if q, ok := WeakPreservingTweak(f.Data, pos); ok {
+					desc = append(desc, fmt.Sprintf("flip %s@%d (weak hash preserved)", f.Path, q))
+					continue
+				}
+			}
 			f.Data[pos] ^= byte(1 + r.Intn(255))
 			desc = append(desc, fmt.Sprintf("flip %s@%d", f.Path, pos))
 		case 3: // truncate
@@ -212,4 +220,23 @@ func GenBuild(r *Rng, o PairOpts) *Build {
 	}
 	nw.Normalize()
 	return nw
+}
+
+// WeakPreservingTweak changes three consecutive bytes of one block of data (at or after pos, wrapping to the start
+// of the data) by +1, -2, +1: the rolling checksum of every block is unchanged, the content is not.
+func WeakPreservingTweak(data []byte, pos int) (int, bool) {
+	n := len(data)
+	for k := 0; k < n; k++ {
+		p := (pos + k) % n
+		if p+2 >= n || p/BS != (p+2)/BS {
+			continue
+		}
+		if data[p] <= 254 && data[p+1] >= 2 && data[p+2] <= 254 {
+			data[p]++
+			data[p+1] -= 2
+			data[p+2]++
+			return p, true
+		}
+	}
+	return 0, false
 }
